@@ -6,6 +6,7 @@ import (
 	"fmt"
 	"os"
 	"path/filepath"
+	"sort"
 	"strings"
 
 	anystore "github.com/anyproto/any-store"
@@ -136,8 +137,35 @@ func storageDigest(w *world, st list.Storage) string {
 	return fmt.Sprintf("head=%d [%s]", w.ridx(h), strings.Join(ids, ","))
 }
 
+// keyPresence: for the observer's own identity, which read keys / metadata keys it holds, per
+// key-change record (`+` read key, `m` metadata private key).
+func keyPresence(w *world, l list.AclList) string {
+	ks := l.AclState().Keys()
+	ids := make([]int, 0, len(ks))
+	byIdx := map[int]list.AclKeys{}
+	for id, k := range ks {
+		i := w.ridx(id)
+		ids = append(ids, i)
+		byIdx[i] = k
+	}
+	sort.Ints(ids)
+	var b strings.Builder
+	for _, i := range ids {
+		k := byIdx[i]
+		fmt.Fprintf(&b, "%d", i)
+		if k.ReadKey != nil {
+			b.WriteByte('+')
+		}
+		if k.MetadataPrivKey != nil {
+			b.WriteByte('m')
+		}
+		b.WriteByte(' ')
+	}
+	return strings.TrimSpace(b.String())
+}
+
 func (x *c03) dump(o *observer) string {
-	return x.w.snapshot(o.l).String() + " | " + storageDigest(x.w, o.st)
+	return x.w.snapshot(o.l).String() + " keys{" + keyPresence(x.w, o.l) + "} | " + storageDigest(x.w, o.st)
 }
 
 func (x *c03) violate(stream, desc string) {
@@ -179,22 +207,54 @@ func (x *c03) flush(o *observer) {
 		}()
 		return o.l.AddRawRecords(recs)
 	}
-	if x.s.r.Chance(25) {
-		k := x.s.r.Intn(len(o.buf))
-		bad := &consensusproto.RawRecordWithId{Payload: o.buf[k].Payload, Id: o.buf[k].Id + "x"}
-		batch := append(append(append([]*consensusproto.RawRecordWithId{}, o.buf[:k]...), bad), o.buf[k:]...)
+	if x.s.r.Chance(40) {
+		// a record that must be refused is slipped into the batch at position k:
+		//   wrong-id      the id is not the hash of the bytes (refused before anything is applied)
+		//   late-failure  well-formed, correctly signed and chained, several contents, the last of
+		//                 which fails only after the earlier ones were applied (on the working copy)
+		k := x.s.r.Intn(len(o.buf) + 1)
+		if k == 0 && x.s.r.Chance(70) {
+			k = 1 // mostly NOT the first record of the batch
+		}
 		wantHead := o.l.Head().Id
 		if k > 0 {
 			wantHead = o.buf[k-1].Id
 		}
+		var bad *consensusproto.RawRecordWithId
+		what := "wrong-id"
+		if x.s.r.Chance(65) {
+			what = "late-failure"
+			author := 0
+			if ow := x.w.snapshot(x.ref).owners(); len(ow) > 0 {
+				author = ow[0]
+			}
+			cs := []content{
+				{K: "inv", Typ: 0, Key: x.s.r.Intn(nInvKeys)},
+				{K: "opt", Opt: x.s.r.Intn(2)},
+				{K: "add", Pairs: []pair{{x.s.r.Intn(nAccounts), pReader}, {BAD, pReader}}},
+				{K: "pc", Acc: BAD, Perm: pWriter},
+			}
+			bad = x.w.build(author, x.w.ridx(wantHead), cs, tamper{}).raw
+		} else {
+			src := o.buf[x.s.r.Intn(len(o.buf))]
+			bad = &consensusproto.RawRecordWithId{Payload: src.Payload, Id: src.Id + "x"}
+		}
+		batch := append(append(append([]*consensusproto.RawRecordWithId{}, o.buf[:k]...), bad), o.buf[k:]...)
 		err := add(batch)
-		x.s.r.Count("c03.batch-with-bad-record")
+		x.s.r.Count("c03.batch-with-bad-record." + what)
 		if err == nil {
-			x.violate("batch-error", fmt.Sprintf("%s: AddRawRecords reported success for a batch whose record #%d has an id that is not the hash of its bytes", o.name, k))
+			x.violate("batch-error", fmt.Sprintf("%s: AddRawRecords reported success for a batch whose record #%d is a %s record", o.name, k, what))
 		}
 		if got := o.l.Head().Id; got != wantHead {
-			x.violate("batch-error", fmt.Sprintf("%s: after a batch that fails at record #%d the head is record %d, expected record %d", o.name, k, x.w.ridx(got), x.w.ridx(wantHead)))
+			x.violate("batch-error", fmt.Sprintf("%s: after a batch that fails at record #%d (%s) the head is record %d, expected record %d", o.name, k, what, x.w.ridx(got), x.w.ridx(wantHead)))
 		}
+		// one at a time = in batches, and a rejected record changes nothing observable: the live state
+		// must be the state a list rebuilt from the storage (= the accepted prefix, applied one record
+		// at a time) is in, and the storage must end at the accepted prefix
+		if h, err := o.st.Head(context.Background()); err != nil || h != wantHead {
+			x.violate("batch-error", fmt.Sprintf("%s: after a batch that fails at record #%d (%s) the storage head is record %d, expected %d", o.name, k, what, x.w.ridx(h), x.w.ridx(wantHead)))
+		}
+		x.rebuild(o)
 		o.buf = o.buf[k:]
 	}
 	if err := add(o.buf); err != nil {
@@ -259,6 +319,22 @@ func (x *c03) compare(where string) {
 			x.violate("storage-chain", fmt.Sprintf("%s: storage of %s is %s, accepted chain is %s", where, o.name, got, wantSt))
 		}
 	}
+	// same identity ⇒ same keys held, whatever the decode mode (full on validating lists, keep-only-ours
+	// on lists with the network-acceptor verifier) and the feeding mode
+	byId := map[*accountdata.AccountKeys]*observer{}
+	for _, o := range x.obs {
+		if len(o.buf) > 0 {
+			continue
+		}
+		first, ok := byId[o.keys]
+		if !ok {
+			byId[o.keys] = o
+			continue
+		}
+		if a, b := keyPresence(x.w, first.l), keyPresence(x.w, o.l); a != b {
+			x.violate("keys-agree", fmt.Sprintf("%s: %s (validate=%v) holds keys {%s} but %s (validate=%v), same identity, holds {%s}", where, first.name, first.validate, a, o.name, o.validate, b))
+		}
+	}
 	x.s.r.Count("c03.compare")
 }
 
@@ -276,6 +352,9 @@ func (x *c03) rebuild(o *observer) {
 	}
 	if a, b := x.w.snapshot(l2).String(), x.w.snapshot(o.l).String(); a != b {
 		x.violate("rebuild", fmt.Sprintf("%s: rebuilt from storage %s, live %s", o.name, a, b))
+	}
+	if a, b := keyPresence(x.w, l2), keyPresence(x.w, o.l); a != b {
+		x.violate("rebuild-keys", fmt.Sprintf("%s: rebuilt from storage it holds keys {%s}, live {%s}", o.name, a, b))
 	}
 	x.s.r.Count("c03.rebuild")
 }
@@ -341,6 +420,14 @@ func (s *session) walkC03(steps int, useDB bool) {
 	mk(x.memObserver(fmt.Sprintf("account%d-client-batched", member), s.c.acc[member], false, 2+r.Intn(4), false))
 	mk(x.memObserver("node-novalidate", s.c.node, false, 1, false))
 	mk(x.memObserver(fmt.Sprintf("account%d-validating", (member+1)%nAccounts), s.c.acc[(member+1)%nAccounts], true, 1, false))
+	mk(x.memObserver(fmt.Sprintf("account%d-validating-fulldecode", member), s.c.acc[member], true, 1, false))
+	mk(x.memObserver("owner-validating-fulldecode", s.c.acc[owner], true, 1, false))
+	w.noncanon = func() int {
+		if r.Chance(35) {
+			return 1 + r.Intn(5)
+		}
+		return 0
+	}
 	if useDB {
 		mk(x.dbObserver(fmt.Sprintf("account%d-client-anystore", member), s.c.acc[member], false, 1))
 		mk(x.dbObserver("node-validating-anystore", s.c.node, true, 1+r.Intn(3)))
